@@ -128,6 +128,12 @@ def step (x : FReader) : Op → FReader × Out
   | .seek o => let (x', e) := x.seek o; (x', ⟨[], e⟩)
   | .setBlocked b => (x.withR fun r => r.setBlocked b, ⟨[], none⟩)
 
+/-- `Close` (rd = 1: no goroutine to stop): `if bg.err == io.EOF { return nil }; return bg.err`. -/
+def close (x : FReader) : Option Err :=
+  match x.r.err with
+  | some .eof => none
+  | e => e
+
 /-- Run a history: per operation the output and the state after it. -/
 def run (x : FReader) : List Op → List (Out × FReader)
   | [] => []
